@@ -35,7 +35,7 @@ REQUIRED_CLAUSES = ["success.orientation", "success.position", "success.in_limit
 def plan(tier, seed):
     if tier == "quick":
         return [{"n": 300, "timeout_s": 1800} for _ in range(16)]
-    return [{"n": 6500, "timeout_s": 14400} for _ in range(16)]
+    return [{"n": 20000, "timeout_s": 14400} for _ in range(16)]
 
 
 def gen_case(rng):
